@@ -411,7 +411,7 @@ Proof.
 Qed.
 
 (* whenever exec reports a failure after the context has expired, it is the timed-out one *)
-Lemma timed_out_message p o wait_ok neg v :
+Lemma timed_out_report p o wait_ok neg v :
   fg_exec p o wait_ok neg = Some v ->
   (match res (wos p o) with RCtx => true | _ => negb wait_ok end) = true ->
   (exists c r, tC p = Some c /\ t_ret (wos p o) = Some r /\ c <= r) ->
@@ -425,6 +425,11 @@ Qed.
 
 Lemma fg_kill_delay_grace until : fg_kill_delay until = grace until.
 Proof. reflexivity. Qed.
+
+(* what the property says in words: two grace periods are reserved, the kill delay of a
+   foreground command is one grace period, background commands are never killed by waitOrStop *)
+Lemma two_grace_periods_reserved : grace_reserve = 2 /\ (forall until, fg_kill_delay until = grace until) /\ bg_kill_delay <= 0.
+Proof. split; [reflexivity|]. split; [intro; reflexivity|]. discriminate. Qed.
 
 (* A blocked foreground command is interrupted grace_reserve grace periods before the deadline. *)
 Lemma runt_interrupt_time sigma now eps D i o :
@@ -499,7 +504,7 @@ Lemma runt_blocked_timed_out sigma now eps D i o wait_ok neg :
   fg_exec (fg_params now eps D None i) o wait_ok neg = Some (XTimedOut timed_out_message).
 Proof.
   intros B Hi. pose proof (grace_ge_min (D - now)) as G.
-  apply (blocked_reports_timed_out sigma _ o (ctx_deadline now eps D) wait_ok neg B eq_refl eq_refl); [|exact Hi].
+  apply (blocked_reports_timed_out sigma (fg_params now eps D None i) o (ctx_deadline now eps D) wait_ok neg B eq_refl eq_refl); [|exact Hi].
   cbn [tK fg_params]. rewrite fg_kill_delay_grace. assert (0 < min_grace) by reflexivity. lia.
 Qed.
 
